@@ -317,6 +317,7 @@ func (p c02) Exec(c *run.Ctx, idx int, raw json.RawMessage) []run.Result {
 	}
 	opFacts(gs, doc, opDef, sp.Op.Variables, tags)
 	routeFacts(gs, opDef, r.Merged.TypeURLMap.Get, tags)
+	keyReuseRouted(gs, opDef, r.Merged.TypeURLMap.Get, tags)
 	res.Tags = sortedKeys(tags)
 
 	svcByURL := map[string]*ast.Schema{}
